@@ -66,6 +66,7 @@ type Runner struct {
 	curCtxs   *[]ctxRef
 	lastCtxs  []ctxRef          // contexts of the last finished property-function invocation
 	firstFail int               // id of the first invocation that signalled a failure (0 = none yet)
+	shared    map[string]any    // values shared with Custom generator functions (op share)
 	async     []*sync.WaitGroup // goroutines started with goasync and not yet joined
 }
 
@@ -122,7 +123,7 @@ func (r *Runner) exCtxs() *[]ctxRef {
 }
 
 func NewRunner(rec *Recorder) *Runner {
-	r := &Runner{rec: rec, ctxIDs: map[context.Context]int{}, counter: map[string]int{}}
+	r := &Runner{rec: rec, ctxIDs: map[context.Context]int{}, counter: map[string]int{}, shared: map[string]any{}}
 	r.genv = &GenEnv{cache: map[*GenSpec]*Built{}, run: r}
 	return r
 }
@@ -457,6 +458,14 @@ func (in *inv) step(op *Op) {
 		for _, wg := range ws {
 			wg.Wait()
 		}
+	case "share": // make a drawn value visible to Custom generator functions of this scenario
+		r.mu.Lock()
+		r.shared[op.Var] = in.vars[op.Var]
+		r.mu.Unlock()
+	case "sleepfirst": // a slow search phase: only the first N invocations of the scenario are slow
+		if in.top <= op.N {
+			time.Sleep(time.Duration(op.Ms) * time.Millisecond)
+		}
 	case "sleep":
 		time.Sleep(time.Duration(op.Ms) * time.Millisecond)
 	case "nth": // body on the N-th execution of this op within the current run, else the other branch: a property that is NOT a function of its draws
@@ -523,6 +532,26 @@ func (in *inv) step(op *Op) {
 	}
 }
 
+// customShared is a Custom generator function that draws as many values as the shared variable says -- none at all for 0,
+// which the library answers with its "group did not use any data" assertion (a misuse of Custom, deterministic in the draws).
+func (r *Runner) customShared(t *rapid.T, name string) any {
+	r.mu.Lock()
+	n := 0
+	if v, ok := toBig(r.shared[name]); ok {
+		n = int(v.Int64())
+	}
+	r.mu.Unlock()
+	if n == 0 {
+		// returning without drawing is a misuse of Custom that the library answers with a panic: this invocation falsifies the property
+		r.rec.Emit("call", F{"inv": r.curTop, "m": "panic", "site": 9, "msg": "", "g": 0})
+	}
+	out := make([]any, 0, n)
+	for k := 0; k < n; k++ {
+		out = append(out, rapid.Int8().Draw(t, "e"))
+	}
+	return out
+}
+
 // customBody runs the script of a Custom generator function on its own *T.
 func (r *Runner) customBody(t *rapid.T, body []Op, ret *Built) any {
 	r.mu.Lock()
@@ -567,6 +596,35 @@ func (in *inv) eval(c *Cond) bool {
 	case "true":
 		b, _ := v.(bool)
 		return b
+	case "anyge": // some element (slice) or value (map) is >= val
+		k, _ := new(big.Int).SetString(c.Val, 10)
+		rv := reflect.ValueOf(v)
+		hit := func(e reflect.Value) bool {
+			if e.Kind() == reflect.Interface {
+				e = e.Elem()
+			}
+			if !e.IsValid() || !e.CanInterface() {
+				return false
+			}
+			x, ok := toBig(e.Interface())
+			return ok && x.Cmp(k) >= 0
+		}
+		switch rv.Kind() {
+		case reflect.Map:
+			it := rv.MapRange()
+			for it.Next() {
+				if hit(it.Value()) {
+					return true
+				}
+			}
+		case reflect.Slice, reflect.Array:
+			for j := 0; j < rv.Len(); j++ {
+				if hit(rv.Index(j)) {
+					return true
+				}
+			}
+		}
+		return false
 	}
 	a, ok := toBig(v)
 	if !ok {
